@@ -32,6 +32,31 @@ SCOPE = _scope.SCOPE
 TASK = _scope.TASK
 
 
+CLOSE_ORDER = ('_disable_interrupts', '_close_children', '_close_volatile')
+
+
+def is_call_to_any(event, name) -> bool:
+    if event.kind == 'leave':
+        callee = event.data.get('callee')
+        return callee is not None and callee.fn.name == name
+    return is_call_to(event, name)
+
+
+def _close_steps(path):
+    """[(index, step)] of the closing sequence in Scope.__aexit__ itself (inlined helpers
+    count as the place they are called from; an override chaining to super() is one step)"""
+    steps = []
+    for index, event in enumerate(path.events):
+        if event.kind not in ('call', 'enter') or event.depth != 0:
+            continue
+        for name in CLOSE_ORDER:
+            if is_call_to(event, name):
+                if not steps or steps[-1][1] != name:
+                    steps.append((index, name))
+                break
+    return steps
+
+
 def run(check, an: Analysis):
     check.rule('P', 'every exit of Scope.__aexit__ passes _close_scope(); _close_scope '
                     'disables interrupts, closes children, then volatile children')
@@ -56,46 +81,32 @@ def run(check, an: Analysis):
             paths = an.paths(aexit, which)
             verdicts = {}
             for path in paths:
-                closed = [i for i, e in enumerate(path.events)
-                          if is_call_to(e, '_close_scope') and e.depth == 0]
+                steps = _close_steps(path)
+                names = [n for _i, n in steps]
+                closed = [i for i, _n in steps[:1]]
                 out = path.kind if path.kind != 'raise' else 'raise ' + \
                     path.outcome[1].cls.rsplit('.', 1)[-1].replace('ext:', '')
-                ok = len(closed) == 1
+                # interrupts off, then children, then volatile children: once each
+                ok = names == list(CLOSE_ORDER)
                 graceful = True
                 signalled = any(e.kind == 'handler' and e.depth == 0 for e in path.events)
                 if which == 'none' and path.normal and closed and not signalled:
                     # on the graceful way out the children were awaited first
                     awaited = [i for i, e in enumerate(path.events)
-                               if e.kind == 'susp' and is_call_to(e, '_await_children')
-                               and e['exit'] == 'normal']
+                               if e.kind in ('susp', 'leave')
+                               and is_call_to_any(e, '_await_children')
+                               and e.data.get('exit', e.data.get('outcome')) == 'normal']
                     graceful = bool(awaited) and awaited[0] < closed[0]
                 verdicts.setdefault((out, ok and graceful), path)
             short_which = which.replace('exc:', '').rsplit('.', 1)[-1].replace('ext:', '')
             for (out, ok), path in sorted(verdicts.items(), key=lambda kv: repr(kv[0])):
                 check.instance('P', 'Scope.__aexit__[%s]{%s}:%s' % (label, short_which, out),
                                ok, where_fn(aexit.fn),
-                               'this way out closes the scope exactly once%s' % (
+                               'this way out closes the scope exactly once (interrupts off, children, '
+                               'volatile children)%s' % (
                                    ' after awaiting the children' if which == 'none'
                                    and out in ('return', 'normal') else ''),
                                path=rules.path_lines(path), analysed=len(paths))
-        close = an.callee(recv, '_close_scope')
-        for path in an.paths(close):
-            if not path.normal:
-                continue
-            order = [e for e in path.events if e.depth == 0 and e.kind in ('call', 'enter')
-                     and any(
-                is_call_to(e, name) for name in
-                ('_disable_interrupts', '_close_children', '_close_volatile'))]
-            names = [next(n for n in ('_disable_interrupts', '_close_children',
-                                      '_close_volatile') if is_call_to(e, n))
-                     for e in order]
-            # an override chaining to super() shows up as consecutive entries
-            names = [n for i, n in enumerate(names) if i == 0 or names[i - 1] != n]
-            check.instance('P', '_close_scope[%s]:order' % label,
-                           names == ['_disable_interrupts', '_close_children',
-                                     '_close_volatile'], where_fn(close.fn),
-                           'interrupts off, then children, then volatile children: %s'
-                           % names, path=rules.path_lines(path))
     check.floor('P', 30)
     # ---- E ------------------------------------------------------------------
     for recv in receivers:
